@@ -86,6 +86,10 @@ EV_FAULT_SCEN = {
                      ["F eventfd2 1 EMFILE 0"], ("poll", "ppoll")),
 }
 RAW_FAULT_SCEN = {
+    # (no fault) the raw event sits behind a write-only descriptor in the poll back end's tables; that
+    # descriptor goes away
+    "behind-fd": (["O fd 1 pw", "O raw 1", "S fd_reg 1 0 1 0", "S raw_reg 1", "S spawn 1", "S fd_unreg 1", "T 1 raw_post 1",
+                   "T 1 yield", "T 1 raw_post 1"], [], ("poll", "ppoll", "epoll")),
     # a later registration fails for lack of descriptors (every way of making one fails): the objects
     # registered before keep working
     "reg-fail": (["O raw 1", "O raw 2", "S raw_reg 1", "S raw_reg 2", "S spawn 1", "S raw_post 1", "T 1 raw_post 1"],
@@ -144,9 +148,6 @@ def raw_scenarios():
                    "R raw 1 0 1 sigpost 10 1 0", "R raw 2 0 1 childpost 1"]
     S["unreg"] = ["O raw 1", "O raw 2", "S raw_reg 1", "S raw_reg 2", "S spawn 1", "S raw_post 2", "T 1 raw_post 1", "T 1 raw_post 1",
                   "R raw 2 0 1 raw_unreg 1", "R raw 2 0 1 raw_reg 1", "R raw 1 0 1 raw_post 2"]
-    # the raw event sits behind a write-only descriptor in the back end's tables; that descriptor goes away
-    S["behind-fd"] = ["O fd 1 pw", "O raw 1", "S fd_reg 1 0 1 0", "S raw_reg 1", "S spawn 1", "S fd_unreg 1", "T 1 raw_post 1",
-                      "T 1 yield", "T 1 raw_post 1"]
     # a burst larger than a pipe buffer posted by the owner itself (nobody drains meanwhile): never blocks
     S["burst-owner"] = ["O raw 1", "O raw 2", "S raw_reg 1", "S raw_reg 2", "S spawn 1", "S raw_burst 1 70000", "T 1 raw_post 2",
                         "R raw 2 0 1 raw_burst 1 70000", "R raw 2 0 1 raw_post 2"]
@@ -345,7 +346,7 @@ def run(pid, tier, seed, replay=None):
                     seen_rules[s] += 1
                     nontrivial.add(vlib.sha(idx[v["id"]])[:16])
             for r in v["viols"]:
-                if r.startswith(pid) or r in ("C18:crash", "C07:hang-real"):
+                if r.startswith(pid) or r in ("C18:crash", "C07:hang-real", "C07:spin"):   # (a loop that spins delivers nothing)
                     bad.setdefault(v["id"], []).append(r if r.startswith(pid) else pid + ":" + r.split(":")[1])
         pick = list(bad)[:12]
         if pick:
